@@ -226,7 +226,9 @@ def apply(di, data, op, arg):
         i = {"0": 0, "mid": n // 2, "len": n, "len+3": n + 3, "-1": -1, "-len": -n, "1": 1, "-len-2": -n - 2}[pos]
         return data.insert(i, dict(item))
     if op == "add": return data + di.ListOfDicts([dict(x) for x in arg])
-    if op == "mul": return data * arg
+    if op == "mul":
+        import numpy as np
+        return data * (np.int64(arg) if arg % 2 else arg)        # a count taken from an array is a NumPy integer: a list accepts anything with __index__
     if op == "rmul": return arg * data
     if op == "setitem":
         # item assignment edits the list in place; the new item supports attribute access like the others
